@@ -140,7 +140,7 @@ def main():
             "kind_free_text": "Go test binary: pgregory.net/rapid v1.3.0 property tests + native go fuzz targets over declarations generated with reflect.StructOf, driven by /verif/check (python3, stdlib)",
         }],
         "checks": checks,
-        "notes": "Property-based testing and fuzzing only. ./check <ID> --tier quick|thorough; VERIF_SEED selects the rapid seeds. known_findings.json lists genuine defects: 27 fixed in /repo by 'fix:' commits (a fixed entry suppresses nothing), 1 known and not repaired (F-C12-7, printed as a KNOWN-FINDING line by ./check C12, its class excluded by construction and counted in the evidence).",
+        "notes": "Property-based testing and fuzzing only. ./check <ID> --tier quick|thorough; VERIF_SEED selects the rapid seeds. known_findings.json lists genuine defects: 29 fixed in /repo by 'fix:' commits (a fixed entry suppresses nothing), 1 known and not repaired (F-C12-7, printed as a KNOWN-FINDING line by ./check C12, its class excluded by construction and counted in the evidence).",
         "not_applicable": [{"property_id": p, "reason": NOT_YET} for p in ALL if p not in CHECKS],
     }
     with open(os.path.join(ROOT, "MANIFEST.json"), "w") as f:
